@@ -153,4 +153,38 @@ mod verif_replay_matcher {
         }
         println!("verif_replay_repeat: {cases} cases ok");
     }
+
+    /// <[^a-b,...]> allows exactly the complement of the listed ranges inside the vocabulary; <[a-b,...]> exactly the ranges
+    #[test]
+    fn verif_replay_token_ranges() {
+        let seed: u64 = std::env::var("VERIF_SEED").ok().and_then(|s| s.parse().ok()).unwrap_or(0);
+        let mut rng = Rng(0x9E3779B97F4A7C15 ^ seed.wrapping_mul(0x2545F4914F6CDD1D) | 1);
+        let env = ApproximateTokEnv::single_byte_env();
+        let n_vocab = env.tok_trie().vocab_size() as u32;
+        let mut cases = 0;
+        for _ in 0..120 {
+            let nr = 1 + rng.below(3) as usize;
+            let mut ranges: Vec<(u32, u32)> = vec![];
+            for _ in 0..nr {
+                let a = rng.below(n_vocab as u64) as u32;
+                let b = a + rng.below((n_vocab - a) as u64).min(40) as u32;
+                ranges.push((a, b));
+            }
+            let spec: Vec<String> = ranges.iter().map(|(a, b)| if a == b { format!("{a}") } else { format!("{a}-{b}") }).collect();
+            for negated in [true, false] {
+                let lark = format!("start: <[{}{}]>\n", if negated { "^" } else { "" }, spec.join(","));
+                let mut m = mk(&env, &lark);
+                let mask = m.compute_mask().unwrap();
+                for t in 0..n_vocab {
+                    let listed = ranges.iter().any(|(a, b)| *a <= t && t <= *b);
+                    let want = listed != negated;
+                    if mask.is_allowed(t) != want {
+                        panic!("REPLAY-FAIL {lark:?}: token {t} allowed={} expected={want}", mask.is_allowed(t));
+                    }
+                }
+                cases += 1;
+            }
+        }
+        println!("verif_replay_token_ranges: {cases} cases ok");
+    }
 }
